@@ -1476,10 +1476,16 @@ class NormFn(BatchFn):
             d, dt, _ = self.expr(e.args[0].func.value, allow_eff)
             if norm(dt) == "DictK":
                 return f"({d}.map Prod.snd)", "ListK", False
-        if name in ("max", "min", "sum") and len(e.args) == 1 and not e.keywords:
+        zero_default = (len(e.keywords) == 1 and e.keywords[0].arg == "default" and isinstance(e.keywords[0].value, ast.Constant)
+                        and type(e.keywords[0].value.value) in (int, float) and e.keywords[0].value.value == 0)
+        if name in ("max", "min", "sum") and len(e.args) == 1 and (not e.keywords or (zero_default and name != "sum")):
             v, t, _ = self.expr(e.args[0], allow_eff)
             if norm(t) == "ListK":
-                return f"({ {'max': 'maxL', 'min': 'minL', 'sum': 'lsum'}[name] } {v})", "K", False
+                if name == "sum" or zero_default:     # maxL / minL of the empty list are 0: Python's `default=0`
+                    return f"({ {'max': 'maxL', 'min': 'minL', 'sum': 'lsum'}[name] } {v})", "K", False
+                if not allow_eff:
+                    self.err(e, f"{name}() of a possibly empty list (raises ValueError) in a pure position")
+                return f"(← { {'max': 'maxE', 'min': 'minE'}[name] } {v})", "K", True   # no default: ValueError on the empty list
         return super().call(e, allow_eff)
 
     def self_attr(self, e):
